@@ -1,5 +1,6 @@
 import TunnoxModel.Proofs.C16
 import TunnoxModel.Proofs.C02
+import TunnoxModel.Proofs.C16Start
 /-!
 # C16 — shutdown paths run exactly once and leave nothing running
 
@@ -144,6 +145,36 @@ theorem C16_tunnel_asFound_witness :
     holdsT ⟨0, true⟩ [0, 3] (tObs (tFinal .asFound ⟨0, true⟩ 1 [0, 3] [0, 1, 0, 1])) = false := by
   decide
 
+/-! ## Tunnel.Start ‖ Tunnel.Close -/
+
+/-- `Start` binds the context (`SetCtx`, reading `manager.Ctx()`) BEFORE the state CAS; the log
+call and the three spawns come after it. -/
+theorem skel_tunnel_start :
+    Skel.Tunnel_Start = ["SetCtx", "manager.Ctx", "state.CompareAndSwap", "corelog.Infof",
+      "monitorPeerNotification", "monitorTimeout", "runDataCopy"] := by decide
+
+/-- **Every interleaving of `Start`'s steps** (`manager.Ctx()`, `SetCtx`, state CAS, spawn — the
+current order) **with any number `n ≥ 1` of `Close` calls**: after all calls returned the tunnel
+is `Closed`, the close sequence ran exactly once, nothing that `Start` spawned is left with a
+live context (monitors and timer end on cancellation, the copy ends on the closed connections),
+and if `Start` reported success the tunnel's context is cancelled and its latch closed.
+(With no closer the tunnel ends `Connected` with nothing closed: first disjunct of `holdsU`,
+see the example below.) -/
+theorem C16_start_close (n : Nat) (hn : 1 ≤ n) (s : Schedule) :
+    holdsU (uObs (uFinal .setCtxFirst n s)) = true :=
+  holdsU_final n hn s
+
+/-- Every call returns. -/
+theorem C16_start_close_all_return (n : Nat) (hn : 1 ≤ n) (s : Schedule) (i : Nat) (l : ULocal)
+    (h : (uFinal .setCtxFirst n s).ths[i]? = some l) : l.pc = UPc.done :=
+  (u_final n hn s).2.2.2.2 i l h
+
+/-- The rejected order "CAS, then `manager.Ctx()`/`SetCtx`": a `Close` that completes between the
+CAS and `SetCtx` leaves the monitors and the 5-minute timer of a closed tunnel running on a live
+context (schedule: Start's CAS, the closer's four steps, the rest of Start). -/
+theorem C16_start_casFirst_witness :
+    holdsU (uObs (uFinal .casFirst 1 [0, 1, 1, 1, 1, 0, 0, 0])) = false := by decide
+
 /-! ## Traffic report -/
 
 /-- **Totals reported exactly once, every schedule.** Any list of rounds (bytes counted, then any
@@ -242,6 +273,11 @@ example : ((rRounds .asFound rInit [⟨100, 7, 2, [0, 1, 0, 0]⟩]).map rObs) = 
 example : (sObs (sFinal .repaired [(false, 4)] 1 [0, 0, 0, 1, 1, 1])).op = 2 := by decide
 example : (sObs (sFinal .asFound [(false, 4)] 1 [0, 0, 0, 1, 1, 1])).op = 3 := by decide
 example : (fObs ⟨[{ data := [1, 2, 3], err := none }, { data := [4], err := none }], []⟩ [0, 1, 1]).statS = 4 := by decide
+example : uObs (uFinal .setCtxFirst 0 []) = ⟨1, 0, true, 0, false, false⟩ := by decide
+example : holdsU (uObs (uFinal .setCtxFirst 0 [])) = true := by decide
+example : uObs (uFinal .setCtxFirst 1 [0, 0, 0, 1, 1, 1, 1, 0]) = ⟨3, 1, true, 0, true, true⟩ := by decide
+example : uObs (uFinal .setCtxFirst 1 [1, 1, 1, 1]) = ⟨3, 1, false, 0, false, false⟩ := by decide
+example : uObs (uFinal .casFirst 1 [0, 1, 1, 1, 1, 0, 0, 0]) = ⟨3, 1, true, 2, false, false⟩ := by decide
 example : (bFinal 3 [0, 1, 2, 2, 1, 0]).sh.sc = 2 ∧ (bFinal 3 [0, 1, 2, 2, 1, 0]).sh.cleanups = 1 := by decide
 
 end Tunnox.C16
